@@ -393,4 +393,235 @@ theorem covC_uniform (l : List (Matrix X X K × Nat)) (dt : Nat) (h : ∀ p ∈ 
 
 end blocks
 
+
+/-! ### whole covariance scripts -/
+
+section tree
+variable (E : Nat → Nat → Matrix X X K)
+
+local notation "SB" => mssem isReal re (blocksE E) leaf sqrt kneg dcomplex dminneg dminzero (fun dm k A => E dm k * A) mkeys
+local notation "SD" => msem isReal re (blocksE E) leaf
+
+/-- every member of an accepted sequence of draws was accepted -/
+theorem seqAll_ok_mem {α : Type} : ∀ (rs : List (Except String (List α))) (l : List α), seqAll rs = .ok l →
+    ∀ r ∈ rs, ∃ l', r = .ok l'
+  | [], _, _, r, hr => by simp at hr
+  | .error e :: _, _, h, _, _ => by simp [seqAll] at h
+  | .ok l1 :: rest, l, h, r, hr => by
+    simp only [seqAll] at h
+    split at h
+    · rename_i l2 h2
+      simp only [List.mem_cons] at hr
+      rcases hr with rfl | hr
+      · exact ⟨l1, rfl⟩
+      · exact seqAll_ok_mem rest l2 h2 r hr
+    · cases h
+
+theorem seqAll_zip_ok_mem {α : Type} (f : Nat × Except String (List α) → Except String (List α))
+    (hf2 : ∀ k e, f (k, .error e) = .error e) :
+    ∀ (rs : List (Except String (List α))) (off : Nat) (l : List α),
+      seqAll (((List.range' off rs.length).zip rs).map f) = .ok l → ∀ r ∈ rs, ∃ l', r = .ok l'
+  | [], _, _, _, r, hr => by simp at hr
+  | .error e :: rest, off, l, h, _, _ => by
+    simp only [List.length_cons, List.range'_succ, List.zip_cons_cons, List.map_cons, hf2, seqAll] at h
+    cases h
+  | .ok l1 :: rest, off, l, h, r, hr => by
+    simp only [List.length_cons, List.range'_succ, List.zip_cons_cons, List.map_cons] at h
+    have hmem := seqAll_ok_mem _ _ h
+    simp only [List.mem_cons] at hr
+    rcases hr with rfl | hr
+    · exact ⟨l1, rfl⟩
+    · cases hfx : f (off, .ok l1) with
+      | error e => rw [hfx] at h; simp [seqAll] at h
+      | ok l0 =>
+        rw [hfx] at h
+        simp only [seqAll] at h
+        split at h
+        · rename_i l2 h2
+          exact seqAll_zip_ok_mem f hf2 rest (off + 1) l2 h2 r hr
+        · cases h
+
+theorem signedSum_zip_nulls {α : Type} (D : α → Matrix X X K) (isN : α → Bool) (hN : ∀ o, isN o = true → D o = 0) :
+    ∀ (ops : List α) (neg : List Bool), neg.length = ops.length →
+      (∀ p ∈ ops.zip neg, isN p.1 = false → p.2 = false) →
+      signedSum ((ops.map D).zip neg) = (ops.map fun o => if isN o then 0 else D o).sum
+  | [], _, _, _ => by simp [signedSum]
+  | o :: os, [], h, _ => by simp at h
+  | o :: os, n :: ns, h, hs => by
+    have ih := signedSum_zip_nulls D isN hN os ns (by simpa using h) (fun p hp => hs p (by simp [hp]))
+    simp only [signedSum, List.map_cons, List.zip_cons_cons, List.sum_cons] at ih ⊢
+    rw [ih]
+    congr 1
+    by_cases hn : isN o = true
+    · simp [hn, hN o hn]
+    · have hn' : isN o = false := by simpa using hn
+      have := hs (o, n) (by simp) hn'
+      simp only at this
+      simp [hn', this]
+
+/-- what the whole-script theorem needs from the operators of a covariance script: plain-domain scalings, diagonal
+    transformations in range, sandwiches whose stored simplified operator is `Bᴴ C B` (C01 `mkSandwich_sound`) with a bun whose
+    adjoint action is the conjugate transpose, adapters around self-adjoint operands, sums with one sign per summand -/
+def CovOK : Op K (X → K) → Prop
+  | .scaling d _ _ => mkeys d = []
+  | .diag _ _ t _ => t < 4
+  | .sandwich bun cheese op =>
+      CovOK cheese ∧
+      den SD bun ADJOINT_TIMES = (den SD bun TIMES)ᴴ ∧
+      den SD op TIMES = (den SD bun TIMES)ᴴ * den SD cheese TIMES * den SD bun TIMES ∧
+      den SD op INVERSE_TIMES = den SD bun INVERSE_TIMES * den SD cheese INVERSE_TIMES * (den SD bun INVERSE_TIMES)ᴴ
+  | .blockdiag _ ents => ∀ p ∈ ents.map CovOK, p
+  | .sum ops neg => ops ≠ [] ∧ neg.length = ops.length ∧ ∀ p ∈ ops.map CovOK, p
+  | .adapter o t => t < 4 ∧ CovOK o ∧
+      (t &&& 1 = 1 → den SD o ADJOINT_TIMES = den SD o TIMES ∧ den SD o ADJOINT_INVERSE_TIMES = den SD o INVERSE_TIMES)
+  | _ => False
+
+theorem den_adapter' (o : Op K (X → K)) (t s : Nat) (ht : t < 4) (hs : s < 4) :
+    den SD (Op.adapter o t) (1 <<< s) = den SD o (1 <<< (s ^^^ t)) := by
+  rw [den, adapterApplyMode_eval t ht s hs]
+
+theorem den_scaling' (d : Nat) (c : K) (dt : Nat) :
+    den SD (Op.scaling d c dt) (1 <<< 0) = c • (1 : Matrix X X K) ∧
+    (c ≠ 0 → den SD (Op.scaling d c dt) (1 <<< 2) = c⁻¹ • (1 : Matrix X X K)) := by
+  have h0 := adjMask_eval 0 (by decide)
+  have h1 := invMask_eval 0 (by decide)
+  have h2 := adjMask_eval 2 (by decide)
+  have h3 := invMask_eval 2 (by decide)
+  constructor
+  · unfold den scalingFactor
+    rw [h0, h1]
+    by_cases hc1 : c = 1
+    · simp [msem, hc1]
+    · by_cases hc0 : c = 0
+      · simp [msem, hc0]
+      · simp [msem, hc1, hc0]
+  · intro hc0
+    unfold den scalingFactor
+    rw [h2, h3]
+    by_cases hc1 : c = 1
+    · simp [msem, hc1]
+    · simp [msem, hc1, hc0]
+
+/-- **C13 for whole covariance scripts**: whenever the (modelled) sampler of an operator built from scalings, diagonals (any
+    pending transformation), sandwiches, block-diagonal operators, sums and adjoint / inverse adapters accepts, the covariance
+    `Σ_k A_k A_kᴴ` of its draws is exactly the operator's own action — TIMES for a forward draw, INVERSE_TIMES for an inverse draw. -/
+theorem sampler_sound
+    (hsqrt : ∀ c, Admissible isReal kneg c → sqrt c * sqrt c = c ∧ star (sqrt c) = sqrt c)
+    (hD : ∀ d : X → K, dcomplex d = false → dminneg d = false →
+        ∀ x, sqrt (d x) * sqrt (d x) = d x ∧ star (sqrt (d x)) = sqrt (d x) ∧ star (d x) = d x) :
+    ∀ (o : Op K (X → K)) (fi : Bool) (l : List (Matrix X X K × Nat)),
+      sampler SB o fi = .ok l → CovOK isReal re leaf mkeys E o →
+      cov l = den SD o (1 <<< (if fi then 2 else 0))
+  | .scaling d c dt, fi, l, h, hok => by
+    have hmk : mkeys d = [] := by rw [CovOK] at hok; exact hok
+    cases fi with
+    | false =>
+      rw [scaling_cov isReal re (blocksE E) leaf sqrt kneg dcomplex dminneg dminzero _ mkeys hsqrt d c dt l hmk h]
+      exact ((den_scaling' isReal re leaf E d c dt).1).symm
+    | true =>
+      obtain ⟨h1, h2⟩ := scaling_inv_cov isReal re (blocksE E) leaf sqrt kneg dcomplex dminneg dminzero _ mkeys hsqrt d c dt l hmk h
+      rw [h1]
+      exact ((den_scaling' isReal re leaf E d c dt).2 h2).symm
+  | .diag dm d t dt, fi, l, h, hok => by
+    have ht : t < 4 := by rw [CovOK] at hok; exact hok
+    exact diag_cov isReal re (blocksE E) leaf sqrt kneg dcomplex dminneg dminzero _ mkeys hD dm d t dt fi ht l h
+  | .sandwich bun cheese op, fi, l, h, hok => by
+    rw [CovOK] at hok
+    obtain ⟨hc, hadj, hT, hI⟩ := hok
+    cases fi with
+    | false =>
+      obtain ⟨lc, hlc, _, h2⟩ := sandwich_cov isReal re (blocksE E) leaf sqrt kneg dcomplex dminneg dminzero _ mkeys bun cheese op l h
+      have ih := sampler_sound hsqrt hD cheese false lc hlc hc
+      rw [h2 hadj, ih, den]
+      exact hT.symm
+    | true =>
+      obtain ⟨_, lc, hlc, h2⟩ := sandwich_inv_cov isReal re (blocksE E) leaf sqrt kneg dcomplex dminneg dminzero _ mkeys bun cheese op l h
+      have ih := sampler_sound hsqrt hD cheese true lc hlc hc
+      rw [h2, ih, den]
+      exact hI.symm
+  | .blockdiag dm ents, fi, l, h, hok => by
+    rw [CovOK] at hok
+    have hcov := blockdiag_cov isReal re leaf sqrt kneg dcomplex dminneg dminzero mkeys E dm ents fi l h
+    have hall : ∀ e ∈ ents, ∃ le, sampler SB e fi = .ok le := by
+      intro e he
+      rw [sampler, List.range_eq_range'] at h
+      have := seqAll_zip_ok_mem (α := Matrix X X K × Nat) _ (fun k e => rfl) (ents.map fun e => sampler SB e fi) 0 l h
+        (sampler SB e fi) (List.mem_map.mpr ⟨e, he, rfl⟩)
+      exact this
+    rw [hcov, den]
+    show blocksE E dm _ = blocksE E dm _
+    congr 1
+    apply List.map_congr_left
+    intro e he
+    obtain ⟨le, hle⟩ := hall e he
+    rw [hle]
+    exact sampler_sound hsqrt hD e fi le hle (hok _ (List.mem_map.mpr ⟨e, he, rfl⟩))
+  | .sum ops neg, fi, l, h, hok => by
+    rw [CovOK] at hok
+    obtain ⟨hne, hlen, hok⟩ := hok
+    cases fi with
+    | true => rw [sampler] at h; simp at h
+    | false =>
+      obtain ⟨hc, hneg⟩ := sum_cov isReal re (blocksE E) leaf sqrt kneg dcomplex dminneg dminzero _ mkeys ops neg l h
+      have hall : ∀ o ∈ ops, isNull o = false → ∃ lo, sampler SB o false = .ok lo := by
+        intro o ho hn
+        rw [sampler] at h
+        simp only [Bool.false_eq_true, if_false] at h
+        split at h
+        · cases h
+        · have := seqAll_ok_mem _ _ h (if isNull o then .ok [] else sampler SB o false) (List.mem_map.mpr ⟨o, ho, rfl⟩)
+          simpa [hn] using this
+      rw [hc, den]
+      simp only [Bool.false_eq_true, if_false]
+      have hz : (ops.map (den SD · (1 <<< 0))).zip neg ≠ [] := by
+        cases ops with
+        | nil => exact (hne rfl).elim
+        | cons a as => cases neg with
+          | nil => simp at hlen
+          | cons n ns => simp
+      rw [sumR_msem isReal re (blocksE E) leaf _ hz]
+      rw [signedSum_zip_nulls (fun o => den SD o (1 <<< 0)) isNull
+        (fun o ho => by cases o <;> simp [isNull] at ho; rw [den]; split <;> rfl) ops neg hlen
+        (fun p hp hn => by
+          have := List.any_eq_false.mp hneg p (List.mem_filter.mpr ⟨hp, by simp [hn]⟩)
+          simpa using this)]
+      congr 1
+      apply List.map_congr_left
+      intro o ho
+      by_cases hn : isNull o = true
+      · simp [hn]
+      · have hn' : isNull o = false := by simpa using hn
+        obtain ⟨lo, hlo⟩ := hall o ho hn'
+        simp only [hn', Bool.false_eq_true, if_false, hlo, covE]
+        exact sampler_sound hsqrt hD o false lo hlo (hok _ (List.mem_map.mpr ⟨o, ho, rfl⟩))
+  | .adapter o t, fi, l, h, hok => by
+    rw [CovOK] at hok
+    obtain ⟨ht, hco, hherm⟩ := hok
+    rw [adapter_sampler isReal re (blocksE E) leaf sqrt kneg dcomplex dminneg dminzero _ mkeys o t fi ht] at h
+    have ih := sampler_sound hsqrt hD o _ l h hco
+    rw [ih, den_adapter' isReal re leaf E o t _ ht (by cases fi <;> decide)]
+    interval_cases t <;> cases fi <;> simp at hherm ⊢ <;>
+      first
+      | rfl
+      | exact hherm.1.symm
+      | exact hherm.2.symm
+  | .idEntry _, _, _, _, hok => by simp [CovOK] at hok
+  | .leaf _ _ _ _, _, _, _, hok => by simp [CovOK] at hok
+  | .null _ _, _, _, _, hok => by simp [CovOK] at hok
+  | .chain _, _, _, _, hok => by simp [CovOK] at hok
+  | .invEnabler _, _, _, _, hok => by simp [CovOK] at hok
+termination_by o => sizeOf o
+decreasing_by
+  all_goals simp_wf
+  all_goals first
+    | omega
+    | (have := List.sizeOf_lt_of_mem ‹_ ∈ _›; omega)
+
+/-- non-vacuity of `CovOK`: a sum of a diagonal and the inverse adapter of a scaling on plain domains is covered -/
+example (d : X → K) (c : K) (h0 : mkeys 0 = []) :
+    CovOK isReal re leaf mkeys E (Op.sum [Op.diag 0 d 1 1, Op.adapter (Op.scaling 0 c 1) 2] [false, false]) := by
+  simp [CovOK, h0]
+
+end tree
+
 end NiftyVerif.C13
